@@ -252,9 +252,15 @@ Lower(c) == IF \E k \in 1..26 : UpperSeq[k] = c THEN LowerSeq[CHOOSE k \in 1..26
 Mutations(nm) == {nm, <<" ">> \o nm \o <<" ", " ">>, Append(nm, "x"), Append(nm, ":"),
                   IF nm = <<>> THEN <<>> ELSE SubSeq(nm, 1, Len(nm) - 1),
                   [k \in 1..Len(nm) |-> Lower(nm[k])], [k \in 1..Len(nm) |-> Upper(nm[k])],
-                  <<"Z", "z", "9">>, <<>>, <<" ">>}
+                  <<"Z", "z", "9">>, <<>>, <<" ">>,
+                  \* an EMPTY path component next to the name (a leading separator, a doubled trailing separator): no item has an
+                  \* empty name, so these are "any other path string" and must not resolve
+                  <<"/">> \o nm, nm \o <<"/", "/">>, <<"/", "/">> \o nm, nm \o <<"/", " ", "/">>}
+\* a probe is a path relative to the directory: it resolves iff it is ONE token (after the trailing separator is dropped)
+\* that looks up an item; an empty token in front, in the middle or doubled at the end resolves nothing
+PathHit(t) == LET tk == Tokens(t) IN IF Len(tk) = 1 THEN Lookup(tk[1]) ELSE 0
 Probes == LET texts == UNION {Mutations(SafePass.names[k]) : k \in 1..Len(sibs)} IN
-          {[text |-> t, hit |-> Lookup(t), blank |-> Strip(t) = <<>>] : t \in texts}
+          {[text |-> t, hit |-> PathHit(t), blank |-> Strip(t) = <<>>] : t \in texts}
 
 Emit == (EmitCases /\ done) =>
    PrintT(<<"CASE", ToJson([names |-> [k \in 1..Len(sibs) |-> NameOf(k)], isdir |-> IsDir,
